@@ -844,12 +844,26 @@ fn main() {
             let many = instance_at(n, &clock);
             let mut obs1 = Vec::new();
             let mut obsn = Vec::new();
+            // the number a sweep reports is no reply to any client: it is compared only while time has
+            // moved together with sweeps alone (then every shard count has evicted the same keys); once the
+            // clock has advanced without a sweep, a single shard has lazily dropped keys that other shards
+            // of an N-shard node have had no reason to look at, and the counts legitimately differ
+            let mut free_seen = false;
             for r in &seq {
                 if let Rq::Tick(ms) | Rq::Advance(ms) = r {
                     clock.advance(*ms);
                 }
-                obs1.push(canon(r, run_one(&one, r).await));
-                obsn.push(canon(r, run_one(&many, r).await));
+                if matches!(r, Rq::Advance(_)) {
+                    free_seen = true;
+                }
+                let (a, b) = (run_one(&one, r).await, run_one(&many, r).await);
+                if free_seen && matches!(r, Rq::Tick(_)) {
+                    obs1.push(RespValue::simple("OK"));
+                    obsn.push(RespValue::simple("OK"));
+                } else {
+                    obs1.push(canon(r, a));
+                    obsn.push(canon(r, b));
+                }
             }
 
             // ---- routing facts of this case's keys, observed on the probe instance
